@@ -106,8 +106,8 @@ func parseSingleConstraint(c string) ([]*constraint, error) {
 		return parseTildeRange(c[1:])
 	}
 
-	// Handle x-range (1.x, 1.2.x)
-	if strings.Contains(c, "x") || strings.Contains(c, "X") {
+	// Handle x-range (1.x, 1.2.x, 1.*, 1.2.*)
+	if strings.Contains(c, "x") || strings.Contains(c, "X") || strings.Contains(c, "*") {
 		return parseXRange(c)
 	}
 
@@ -182,8 +182,13 @@ func parseXRange(rangeStr string) ([]*constraint, error) {
 		return nil, fmt.Errorf("invalid major version in x-range: %s", parts[0])
 	}
 
-	// 1.x means >=1.0.0-0 <2.0.0-0 (includes prereleases in range, excludes prereleases from next major)
-	if len(parts) == 2 && (parts[1] == "x" || parts[1] == "X") {
+	// x, X and * all stand for "any value"
+	isWildcard := func(part string) bool {
+		return part == "x" || part == "X" || part == "*"
+	}
+
+	// 1.x (and 1.x.x) means >=1.0.0-0 <2.0.0-0 (includes prereleases in range, excludes prereleases from next major)
+	if isWildcard(parts[1]) && (len(parts) == 2 || (len(parts) == 3 && isWildcard(parts[2]))) {
 		return []*constraint{
 			{operator: ">=", version: fmt.Sprintf("%d.0.0-0", major)},
 			{operator: "<", version: fmt.Sprintf("%d.0.0-0", major+1)},
@@ -191,7 +196,7 @@ func parseXRange(rangeStr string) ([]*constraint, error) {
 	}
 
 	// 1.2.x means >=1.2.0-0 <1.3.0-0 (includes prereleases in range, excludes prereleases from next minor)
-	if len(parts) == 3 && (parts[2] == "x" || parts[2] == "X") {
+	if len(parts) == 3 && isWildcard(parts[2]) {
 		minor, err := strconv.Atoi(parts[1])
 		if err != nil {
 			return nil, fmt.Errorf("invalid minor version in x-range: %s", parts[1])
